@@ -348,8 +348,40 @@ func implW(f []string, o *oracleSink) string {
 		}
 	}
 	tr.opts = cur
+	// C15: a sink failure must be returned by some call, at the latest by Close, and what reached the
+	// sink must be a prefix of the fault-free output
+	if fa := atoi(f[1]); fa >= 0 && !hung && len(f) > 2 && !strings.Contains(strings.Join(f[2:], " "), "R:") {
+		hit := sink.calls > fa
+		reported := false
+		for _, r := range res {
+			if strings.Contains(r, "injected") {
+				reported = true
+			}
+		}
+		closedLast := f[len(f)-1] == "c"
+		if hit && closedLast && !reported {
+			notes = append(notes, "SINK-FAILURE-NOT-REPORTED")
+		}
+		if shadowDepth == 0 {
+			shadowDepth++
+			f2 := append([]string{f[0], "-1"}, f[2:]...)
+			var o2 oracleSink
+			lastShadowSink = nil
+			_ = implW(f2, &o2)
+			shadowDepth--
+			if lastShadowSink != nil && !bytes.HasPrefix(lastShadowSink, sink.bytes()) {
+				notes = append(notes, "SINK-NOT-PREFIX-OF-FAULT-FREE")
+			}
+		}
+	}
+	if shadowDepth > 0 {
+		lastShadowSink = sink.bytes()
+	}
 	return fmt.Sprintf("%s ; %s ; %s", strings.Join(res, " "), strings.Join(sinks, " "), strings.Join(append(notes, "notes"), " "))
 }
+
+var shadowDepth int
+var lastShadowSink []byte
 
 // implR: R <conc> <blob> <chunk> <failAt> <eofWithData> ops…   (+ `E:<blob>` expect exactly, `P:<blob>` expect strict prefix & error)
 func implR(f []string, o *oracleSink) string {
